@@ -77,6 +77,9 @@ func (d *OTLPDecoder) Decode() error {
 	for _, res := range obj.ResourceSpans {
 		for _, scope := range res.ScopeSpans {
 			for _, span := range scope.Spans {
+				if len(span.TraceId) != 16 || len(span.SpanId) != 8 {
+					return customErrors.New400Error("span must have a 16-byte trace id and an 8-byte span id")
+				}
 				span.Attributes = append(span.Attributes, res.Resource.Attributes...)
 				attrsMap := map[string]string{}
 				populateServiceNames(span)
